@@ -379,6 +379,14 @@ def parentAttrs : List Str :=
 
 def lookup {β : Type} (d : List (Str × β)) (k : Str) : Option β := (d.find? (·.1 == k)).map (·.2)
 
+/-- `re.sub("[\r\n]+", " ", s)`: every run of line breaks becomes one blank -/
+def oneLineAux : Bool → Str → Str
+  | _, [] => []
+  | inRun, c :: s =>
+    if c == '\n' || c == '\r' then (if inRun then oneLineAux true s else ' ' :: oneLineAux true s)
+    else c :: oneLineAux false s
+def oneLine (s : Str) : Str := oneLineAux false s
+
 /-- the BYTEORDER letter -/
 def boLetter : ByteOrder → Str
   | .big => "M".toList
@@ -391,7 +399,7 @@ def writeHeaderBO {ν : Type} (io : NumIO ν) (bo : ByteOrder) (g : Grid ν) : E
   match pixelTypeOfName (stripTrailingDigits (dtypeName g.dtype)) with
   | none => .error .pixelUnrecognised
   | some pixeltype =>
-    let comment := if g.comment = [] then "No comment".toList else g.comment
+    let comment := if oneLine g.comment = [] then "No comment".toList else oneLine g.comment
     .ok (
       fmtLine 14 "NROWS".toList (intStr g.nrows) ++
       fmtLine 14 "NCOLS".toList (intStr g.ncols) ++
@@ -402,7 +410,7 @@ def writeHeaderBO {ν : Type} (io : NumIO ν) (bo : ByteOrder) (g : Grid ν) : E
       fmtLine 14 "PIXELTYPE".toList (upper pixeltype) ++
       fmtLine 14 "BYTEORDER".toList (boLetter bo) ++
       fmtLine 14 "NODATA_VALUE".toList (nodataStr io g.dtype g.nodata) ++
-      fmtLine 14 "NAME".toList g.name ++
+      fmtLine 14 "NAME".toList (oneLine g.name) ++
       fmtLine 14 "COMMENT".toList comment ++
       (parentAttrs.flatMap fun a =>
         match lookup g.parent a with
